@@ -12,6 +12,7 @@ import (
 	"runtime/metrics"
 	"strings"
 	"sync"
+	"syscall"
 )
 
 // PanicError is what Try returns when the callee panicked.
@@ -99,9 +100,34 @@ type Entropy struct {
 	FailOnce bool
 	// MaxRead > 0: a Read delivers at most MaxRead octets (a short read without error, which the io.Reader contract allows)
 	MaxRead int
+	// failErr is the error a failing Read returns (InjectedErrors[ErrKind])
+	failErr error
 }
 
 var ErrInjected = errors.New("probe: injected entropy failure")
+
+// temporaryError is what a transient condition of the operating system looks like to callers that classify errors.
+type temporaryError struct{}
+
+func (temporaryError) Error() string {
+	return "probe: injected entropy failure (resource temporarily unavailable)"
+}
+func (temporaryError) Temporary() bool { return true }
+func (temporaryError) Timeout() bool   { return true }
+
+// InjectedErrors are the error values a failing source returns, selected by EntropyOpts.ErrKind: a failure is a failure
+// whatever it is called - an error that claims to be temporary, an interrupted call, an early end of the stream.
+var InjectedErrors = []error{ErrInjected, syscall.EAGAIN, syscall.EINTR, io.EOF, io.ErrUnexpectedEOF, temporaryError{}, io.ErrNoProgress}
+
+// IsInjected reports whether err is (or wraps) one of the injected failures.
+func IsInjected(err error) bool {
+	for _, e := range InjectedErrors {
+		if errors.Is(err, e) {
+			return true
+		}
+	}
+	return false
+}
 
 func (e *Entropy) Read(p []byte) (int, error) {
 	e.mu.Lock()
@@ -109,7 +135,7 @@ func (e *Entropy) Read(p []byte) (int, error) {
 	e.Reads++
 	if e.FailAt != 0 && (e.Reads == e.FailAt || (e.Reads > e.FailAt && !e.FailOnce)) {
 		e.Failed = true
-		return 0, ErrInjected
+		return 0, e.failErr
 	}
 	if e.MaxRead > 0 && len(p) > e.MaxRead {
 		p = p[:e.MaxRead]
@@ -124,7 +150,7 @@ func (e *Entropy) Read(p []byte) (int, error) {
 		}
 		e.delivered += n
 		e.Failed = true
-		return n, ErrInjected
+		return n, e.failErr
 	}
 	e.delivered += len(p)
 	for i := range p {
@@ -160,6 +186,7 @@ type EntropyOpts struct {
 	FailOnce bool // only that Read fails
 	Budget   int  // > 0: runs dry after this many octets (fails inside a Read)
 	MaxRead  int  // > 0: at most this many octets per Read (short reads)
+	ErrKind  int  // which of InjectedErrors a failing Read returns (modulo their number)
 }
 
 // WithEntropyOpts is the general form of WithEntropy.
@@ -175,7 +202,8 @@ func withEntropyOpts(o EntropyOpts, f func(e *Entropy)) {
 	stream := o.Stream
 	entropyMu.Lock()
 	defer entropyMu.Unlock()
-	e := &Entropy{stream: stream, FailAt: o.FailAt, Budget: o.Budget, FailOnce: o.FailOnce, MaxRead: o.MaxRead, lcg: 0x9e3779b97f4a7c15}
+	e := &Entropy{stream: stream, FailAt: o.FailAt, Budget: o.Budget, FailOnce: o.FailOnce, MaxRead: o.MaxRead, lcg: 0x9e3779b97f4a7c15,
+		failErr: InjectedErrors[((o.ErrKind%len(InjectedErrors))+len(InjectedErrors))%len(InjectedErrors)]}
 	for _, b := range stream {
 		e.lcg = e.lcg*131 + uint64(b) + 1
 	}
